@@ -420,6 +420,8 @@ pub struct FxPlan {
     pub server_today: Option<Date>,
     /// Some(h): "today" comes from the simulated system clock + TZ (h hours west of UTC), not from the test override.
     pub clock_tz: Option<i8>,
+    /// seconds added to the process's instant (see ProcEnv::now_shift)
+    pub now_shift: i64,
     pub fs_faults: FsFaultSpec,
     pub knobs: Knobs,
     pub hash_seed: u64,
@@ -517,6 +519,7 @@ pub fn run_fx_process(plan: FxPlan) -> FxObs {
     env.knobs = plan.knobs.clone();
     env.fs_faults = plan.fs_faults.to_faults();
     env.clock_tz_hours_west = plan.clock_tz;
+    env.now_shift = plan.now_shift;
     let FxPlan { data, today, published_today, force, cache, mem_in, lookups, app_rows, app_files, app_console, app_legacy_date, app_date_fmt, net_faults, server_today, .. } = plan;
     let out: ProcOut<Inner> = run_process(&env, move || {
         use acb::fx::io::{CsvRatesCache, InMemoryRatesCache, RateLoader, RatesCache};
@@ -669,6 +672,7 @@ impl Reference {
             net_faults: vec![],
             server_today: None,
             clock_tz: None,
+            now_shift: 0,
             fs_faults: FsFaultSpec::default(),
             knobs: Knobs::default(),
             hash_seed: 0x5EED,
